@@ -17,11 +17,11 @@ EXPORTERS_T = EXPORTERS_Q + ["jsonsort", "dotlabels", "getprovn"]
 def run(tier, seed):
     quick = tier != "thorough"
     exps = EXPORTERS_Q if quick else EXPORTERS_T
-    runs = [("shapes", 2, "min", ["entity", "generation"]), ("ns", 2 if quick else 3, "min", ["entity"]),
+    runs = [("shapes", 2, "min", ["entity", "generation"]), ("ns", 2, "min", ["entity"]),      # (depth 3 x 420 export sequences cannot be printed in an hour)
             # a document that cannot be unified: exporters that unify first must still leave it alone
             ("conflict", 1, "min", ["entity"])]
     if not quick:
-        runs.append(("shapes", 1, "values", ["entity", "association", "membership"]))
+        runs.append(("shapes", 1, "values", ["entity", "association"]))
     behaviours = []
     stA = stT = 0
     wall = 0.0
@@ -37,10 +37,11 @@ def run(tier, seed):
             raise MachineryError("behaviour generation (B) failed: %s" % B["errors"][:3])
         wall += B["wall_s"]
         hs = B["tr"]
-        if quick and len(hs) > 3000:
+        cap = 3000 if quick else 15000
+        if len(hs) > cap:
             import random
             rng = random.Random(seed)
-            hs = rng.sample(hs, 3000)
+            hs = rng.sample(hs, cap)
         behaviours += [(h, len(h)) for h in hs]
     R = pipeline.replay_and_validate("C13/C", "empty", behaviours, seed=seed)
     for c in CLAUSES:
